@@ -1888,6 +1888,11 @@ void Token::printValueFlow(const std::vector<std::string>& files, bool xml, std:
                 outs += " bound=\"";
                 outs += ValueFlow::Value::toString(value.bound);
                 outs += "\"";
+#ifdef DANMAR_CPPCHECK_VERIF
+                outs += " indirect=\"";
+                outs += std::to_string(value.indirect);
+                outs += "\"";
+#endif
                 if (value.condition) {
                     outs += " condition-line=\"";
                     outs += std::to_string(value.condition->linenr());
